@@ -65,6 +65,9 @@ func parseLoadFile94(reader io.Reader, coresize Address) (WarriorData, error) {
 		if len(fields) != 5 {
 			// empty line
 			if len(fields) == 0 {
+				if strings.Contains(lower, ",") {
+					return WarriorData{}, fmt.Errorf("line %d: unexpected ','", lineNum)
+				}
 				continue
 			}
 
@@ -324,6 +327,9 @@ func parseLoadFile88(reader io.Reader, coresize Address) (WarriorData, error) {
 		if len(fields) != 5 {
 			// empty line
 			if len(fields) == 0 {
+				if strings.Contains(lower, ",") {
+					return WarriorData{}, fmt.Errorf("line %d: unexpected ','", lineNum)
+				}
 				continue
 			}
 
